@@ -89,6 +89,7 @@ def eval_case(case: dict) -> dict:
     viol = []
     outcomes = set()
     n = 0
+    nt_sched = 0
     executed_switches = 0
     plans = []
     start = case.get("start", 0)
@@ -100,7 +101,7 @@ def eval_case(case: dict) -> dict:
     elif mode == "two":  # thread t preempted at p -> u ; u preempted at q -> back to t
         t, u = case["thread"], case["other"]
         for p in range(case["lo"], case["hi"]):
-            for q in range(1, case["n_other"] + 1, case.get("stride", 1)):
+            for q in range(case.get("q_lo", 1), case.get("q_hi", case["n_other"] + 1), case.get("stride", 1)):
                 plans.append([((t, p), u), ((u, q), t)])
     elif mode == "replay":
         plans = [[(tuple(k), v) for k, v in case["plan"]]]
@@ -111,6 +112,7 @@ def eval_case(case: dict) -> dict:
             viol.append({"klass": None, "sig": "deadlock", "detail": f"{e}; docs={names} start={start} plan={plan}"})
             continue
         n += 1
+        nt_sched += bool(sw)
         executed_switches += len(sw)
         bad = judge(names, res)
         outcomes.add(tuple(digest(r) for r in res))
@@ -131,7 +133,7 @@ def eval_case(case: dict) -> dict:
             best[v["sig"]] = dict(v, n=1)
         else:
             cur["n"] += 1
-    return {"viol": [{k: x[k] for k in ("klass", "sig", "detail")} for x in best.values()], "evals": n, "nt": n > 1,
+    return {"viol": [{k: x[k] for k in ("klass", "sig", "detail")} for x in best.values()], "evals": n, "nt_n": nt_sched,
             "cnt": {"schedules": n, "preemptions_executed": executed_switches, "violating_schedules": len(viol)},
             "outcomes": sorted(map(str, outcomes)), "states": n, "transitions": executed_switches}
 
@@ -140,7 +142,7 @@ def plan(run):
     quick = run.tier == "quick"
     run.rule = ("threads encode pool documents (red 4x2 with title; blue/green paginated with footnote; coloured multi-section; figure with coloured title; plain; grouped); "
                 "for every ordered pair (quick: 4 seed-rotated ordered pairs + one document with itself + one triple; thorough: all 30 pairs, 4 self-pairs, 6 triples) every schedule with 0 or 1 preemption at every library call boundary; 3 threads "
-                "with <= 1 preemption; thorough: 2 preemptions exhaustively on the two smallest documents. states = schedules executed; transitions = preemptions executed")
+                "with <= 1 preemption; every schedule with 2 preemptions inside the first W call boundaries of both threads (W=60 quick for one seed-rotated pair, 250 thorough for all pairs); thorough: 2 preemptions exhaustively on the two smallest documents. states = schedules executed; transitions = preemptions executed; non-trivial = distinct schedules in which a preemption was actually executed")
     run.assumptions = ["scheduling points are call events of frames whose code file is under <repo>/src/rtflite/",
                        "between schedules the process-global state is restored by the generic census snapshot (asserted)"]
     docs = DOCS
@@ -189,6 +191,14 @@ def plan(run):
         for lo in range(1, n0 + 1, step):
             cases.append({"mode": "one", "docs": list(perm), "start": 0, "thread": 0, "lo": lo, "hi": min(n0 + 1, lo + step), "targets": [1, 2]})
     run.layer("3-threads-1-preemption", "mc.props.c15:eval_case", cases, chunk=1, total=len(cases), on_result=on_res)
+    # two preemptions inside the start-up window of both threads (where process-wide registries, contexts and
+    # caches are initialised): thread 0 preempted at p <= W, thread 1 preempted at q <= W, back to thread 0
+    W = 60 if quick else 250
+    wpairs = [[("red", "paged"), ("paged", "red"), ("multi", "red")][run.seed % 3]] if quick else list(itertools.permutations(DOCS[:4], 2))
+    for a, b in dict.fromkeys(wpairs):
+        cases = [{"mode": "two", "docs": [a, b], "start": 0, "thread": 0, "other": 1, "lo": lo, "hi": min(W + 1, lo + 3), "n_other": counts.get(b, 0),
+                  "q_lo": 1, "q_hi": W + 1} for lo in range(1, W + 1, 3)]
+        run.layer(f"2-threads-2-preemptions-startup-window-{a}-{b}", "mc.props.c15:eval_case", cases, chunk=1, total=len(cases), on_result=on_res)
     if not quick:
         small = sorted(counts, key=counts.get)[:2]
         for a, b in itertools.permutations(small, 2):
